@@ -544,6 +544,13 @@ def _scalar_ok(tok, e):
 def expected_events(d):
     """what the text must contain, straight from the dictionary (statement of C03): objects, keywords and values in order"""
     ev = [("open", str(d.get("__type__", "?")).upper())]
+    if str(d.get("__type__", "")).lower() in gen.KEYVALUE:
+        # a key-value block as the root of a partial Mapfile
+        for ck, cv in d.items():
+            if not (ck.startswith("__") and ck.endswith("__")):
+                ev.append(("pair", ck, cv))
+        ev.append(("close",))
+        return ev
     for k, v in d.items():
         if k.startswith("__") and k.endswith("__"):
             continue
@@ -665,9 +672,18 @@ def b_reader(tier, seed):
     d["layers"][0]["classes"][0]["styles"].append({"__type__": "style", "pattern": [(10.0, 2.5), (1.0000001, 3)], "width": 0.1234567891})
     d["extent"] = [-180.00000001, -90, 180, 90.5]
     docs.append(("edited:precise-numbers", d))
+    def strings(x):
+        if isinstance(x, dict):
+            for v in x.values():
+                yield from strings(v)
+        elif isinstance(x, (list, tuple)):
+            for v in x:
+                yield from strings(v)
+        elif isinstance(x, str):
+            yield x
     for key, d in docs:
-        if _has_unescaped_quote(d, '"'):
-            continue
+        if _has_unescaped_quote(d, '"') or any("\n" in v or "\r" in v for v in strings(d)):
+            continue          # the reader works line by line: values that contain line breaks are left to the round-trip seam
         n += 1
         try:
             text = m.dumps(d)
